@@ -413,8 +413,37 @@ std::vector<K> gen_keys(TapeReader &t, const GenOpts &o, KeyMeta &meta) {
         std::vector<K> keys;
         keys.reserve(G * L);
         i128 cur = t.chance(1, 2) ? lat.lo : lat.lo + (i128) t.below(1000);
+        // Elias-Fano geometry steering: place the last group so that the high bit vector of the code over the m segment keys has
+        // 2^tt + 2 + d bits, d in -2..2 (sd_vector: low width = round(log2(universe*ln2/m)), buckets = ceil(universe / 2^width),
+        // |high| = m + buckets; universe = last stored key - first key + 1).  The block arithmetic of the select supports sits on
+        // these sizes.  m is G or G+1 depending on whether the builder appends the (last+1) segment: guessed by a tape bit.
+        i128 last_rel = -1;
+        if (o.pow2_span_edge && G >= 8 && t.chance(1, 2)) {
+            const bool assume_extra = t.chance(1, 2);
+            const size_t m = G + (assume_extra ? 1 : 0);
+            unsigned tt = 0;
+            while ((size_t(1) << (tt + 1)) < 3 * m) ++tt; // largest 2^tt < 3m
+            const int d = (int) t.below(5) - 2;
+            const size_t T = (size_t(1) << tt) + 2 + d;
+            if ((size_t(1) << tt) * 10 >= 21 * m && T > m + 2) {
+                const size_t buckets = T - m;
+                const i128 smin = (i128) (G - 1) * ((i128) L + 2 * jmin) + jmin;
+                unsigned lw = 1;
+                while (lw < 60 && ((i128) (buckets - 1) << lw) <= smin) ++lw;
+                lw += (unsigned) t.below(3);
+                const i128 u = ((i128) (buckets - 1) << lw) + 1 + (i128) (pr.next() % (uint64_t(1) << std::min(lw, 62u)));
+                const double ideal = std::log2((double) u * std::log(2.0) / (double) m);
+                const i128 rel = u - 1 - (assume_extra ? (i128) L : 0); // first key of the last group, relative to the first key
+                if (lw < 62 && (unsigned) std::llround(std::max(ideal, 1.0)) == lw && rel > smin && cur + rel + (i128) L + 1 <= lat.hi) {
+                    last_rel = rel;
+                    rec << " EFHIGH(2^" << tt << "+2" << (d < 0 ? "" : "+") << d << ",w=" << lw << (assume_extra ? ",extra" : "") << ")";
+                }
+            }
+        }
+        const i128 first_v = cur;
         for (size_t g = 0; g < G; ++g) {
             if (g) cur += jmin + (i128) (pr.next() % (uint64_t) std::min<i128>(jmin, (i128) 1 << 40));
+            if (g && g + 1 == G && last_rel >= 0 && first_v + last_rel > cur) cur = first_v + last_rel;
             if (lat.hi - cur < (i128) L) break;
             for (size_t i = 0; i < L; ++i) keys.push_back(lat.to_key(cur + (i128) i));
             cur += (i128) L - 1;
